@@ -33,7 +33,7 @@ OpOK(e) ==
          /\ \A sig \in [CircVars(rc) -> BOOLEAN] : CircSemV(Resolved(b), sig).T = sem[sig].T
     [] e.op = "concat" ->
          LET r == CircFromAbs(e.out.rhs)  s == CircFromAbs(e.out.sum) IN
-         /\ s = Concat(c, r) /\ e.out.sum = e.out.sum_ref
+         /\ s = Concat(c, r) /\ \A f \in {"sum_ref", "sum_ref_own", "sum_own_ref", "sum_assign"} : e.out[f] = e.out.sum      \* every overload of + and +=
          /\ (IsUnitary(c) /\ IsUnitary(r) => SemOf(s) = Compose(SemOf(c), c.n, c.n, SemOf(r), c.n))
     [] e.op = "reverse2" ->
          /\ CircFromAbs(e.out.twice) = c
